@@ -265,7 +265,7 @@ class Model:
 
 class SensorModel:
     def __init__(self, state_model, sensor_model, calibration_map, config):
-        self.readings = sorted(list(sensor_model.keys()))
+        self.readings = sorted(list(sensor_model.keys()), key=str)
         self.sensor_models = sensor_model
 
         self.sensor_size = len(self.readings)
@@ -873,7 +873,7 @@ class SklearnEKFAdapter(BaseEstimator):
         for key, model in self.sensor_models.items():
             assert isinstance(sensor_noises[key], dict)
             assert len(sensor_noises[key]) == len(self.sensor_models[key].keys())
-            readings = sorted(list(model.keys()))
+            readings = sorted(list(model.keys()), key=str)
             ReadingCovariance = common.named_vector("ReadingCovariance", readings)
 
             assert_valid_covariance(sensor_noises[key], f"Sensor Noise [{key}]")
@@ -929,7 +929,7 @@ class SklearnEKFAdapter(BaseEstimator):
         )
 
         for _key, mapping in sorted(list(self.sensor_noises.items())):
-            arglist = sorted(list(mapping.keys()))
+            arglist = sorted(list(mapping.keys()), key=str)
 
             flattened.extend(self._flatten_dict_diagonal(mapping, arglist))
 
@@ -959,7 +959,7 @@ class SklearnEKFAdapter(BaseEstimator):
             sensor_size = len(mapping)
             sensor, flattened = flattened[:sensor_size], flattened[sensor_size:]
 
-            arglist = sorted(list(mapping.keys()))
+            arglist = sorted(list(mapping.keys()), key=str)
 
             params["sensor_noises"][key] = nearest_positive_definite(
                 dict(self._inverse_flatten_dict_diagonal(sensor, arglist))
@@ -1078,7 +1078,7 @@ class SklearnEKFAdapter(BaseEstimator):
             )
         )
         for noise_mapping in self.sensor_noises.values():
-            arglist = sorted(list(noise_mapping.keys()))
+            arglist = sorted(list(noise_mapping.keys()), key=str)
             matrix_score += np.sum(
                 np.square(list(self._flatten_dict_diagonal(noise_mapping, arglist)))
             )
